@@ -1405,8 +1405,9 @@ fn weighted_average(x1: f64, w1: f64, x2: f64, w2: f64) -> f64 {
     if average.is_finite() {
         average
     } else {
-        // the products overflow for magnitudes near f64::MAX; the shares do not
-        x1 * (w1 / total) + x2 * (w2 / total)
+        // the products overflow for magnitudes near f64::MAX; the shares do not, but their sum
+        // may still round past f64::MAX when both values sit there: an average lies between them
+        (x1 * (w1 / total) + x2 * (w2 / total)).clamp(x1.min(x2), x1.max(x2))
     }
 }
 
